@@ -90,6 +90,13 @@ func Run(c Case) core.Result {
 	h.Cfg.Table.Q = map[string]script.Outcome{q: {Stmts: []script.Stmt{st}}}
 	h.Cfg.SetLimit, h.Cfg.Limit = true, 1<<16
 	h.TLS = c.TLS
+	for _, col := range c.Cols {
+		if col.T == "custom" {
+			h.Cfg.ExtendTypes = true
+			res.Labels = append(res.Labels, "type-registered-through-ExtendTypes")
+			break
+		}
+	}
 	if c.TLS {
 		res.Labels = append(res.Labels, "inside-tls")
 	}
